@@ -40,6 +40,15 @@ CLAIMS = {
  "C13": ("provenance of the Location values, exact eight-key table rule with sources, guarded merge of the endpoint's own query, leaf-set rule on the stored return URL, constructor-provenance rule for every redirect answer",
          "Decides that the login Location is the rendering of the parsed authorization URI with RawQuery = Encode(table ∪ endpoint query), never a \"?\" concatenation; that the table has exactly the eight parameters from their configured/issued sources; that the return URL is stored and replayed verbatim from scheme/host/path/query; and that every redirect carries the no-cache headers. Character-level escaping is delegated to net/url.",
          "go/ssa model; net/url contracts"),
+ "C03": ("structural-link rules on the redirect/callback model (cookie name and id round trip, return address), edge-sensitive guard rule on every expiry computation and on the reader (sibling agreement on `expiry unknown`), sibling cross-check of the two IdP-response validators, path-existence rule for the fresh path",
+         "Decides the structural necessary conditions without which the redirect chain cannot close for a compliant IdP: same cookie name and session id on both sides, return to the stored URL with a 302 after binding, `expires_in` omitted ⇒ expiry left unknown by both writers and skipped by the reader, tolerant token_type/unknown-member decoding, and an IdP-free path for fresh tokens. Progress of the composed chain over all IdP behaviours is not decided.",
+         "go/ssa model; C13.R3 for the return URL composition"),
+ "C09": ("branch facts (logout test dominates every allow / IdP call), assumed-atom path feasibility (remove before answer), failure-region reachability, answer-shape provenance, effect-ordering rule read → IdP round trip → creating write over the own call graph",
+         "Decides that logout is handled before anything can allow, that the session named by the cookie is removed before the logout answer and a failed removal is reported as an error, that the answer redirects to the configured/discovered end-session URI and expires the cookie, and flags every creating token write that follows a token-endpoint round trip (the schedule clause as an effect ordering). The two existing such writes are genuine, reproduced and listed as known findings; interleavings as such are not explored.",
+         "go/ssa model; both stores create the session on write when absent (read from their code in C12)"),
+ "C11": ("exact table rule on the refresh form, call-site facts (expired ∧ refresh token present), per-field total-and-guarded merge rule enumerated from the TokenResponse type, refresh-helper summary (exchange OK ∧ validator true), outcome rules on Process",
+         "Decides that the refresh grant carries the refresh token just read from the store with the configured client credentials, that every TokenResponse field is merged (new under its guard, else stored; new values are actually taken), that a non-nil result was validated, and that failure removes the stale session via the login redirect while success stores and allows the same merged object. Behaviour over many lifetimes against the provider's ledger is not modelled.",
+         "go/ssa model; C05.R1 for removal in the redirect helper"),
 }
 
 NOT_YET = "check under construction in this round; see DESIGN.md section 4 for the planned static rules"
